@@ -1,36 +1,51 @@
 #!/bin/bash
 # Must-fail corpus: every patch in selftest/mutants/*.patch is applied to a scratch copy of /repo's
-# current tree; the check of each property named in the patch's meta line must report a VIOLATION.
+# current tree; the check of each property named in the patch's .json must report a VIOLATION.
 # usage: selftest/run.sh [PROP]   (PROP: only mutants that name this property)
+# A patch that no longer applies is skipped and reported, never an alarm. A mutant that is not
+# detected makes this script exit 1 (a hole in a contract, not a property verdict).
 set -u
 cd "$(dirname "$0")/.."
 VERIF="$(pwd)"
 REPO="${VERIF_REPO:-/repo}"
 ONLY="${1:-}"
 BASE="${TMPDIR:-/var/tmp}"
-fail=0; ran=0; skipped=0
-export GOFLAGS=-mod=mod GOPROXY=off GOSUMDB=off GOTOOLCHAIN=local VERIF_NO_REPLAY=${VERIF_SELFTEST_REPLAY:+}${VERIF_SELFTEST_REPLAY:-1}
+PAR="${VERIF_SELFTEST_PAR:-4}"
+export GOFLAGS=-mod=mod GOPROXY=off GOSUMDB=off GOTOOLCHAIN=local VERIF_NO_REPLAY=1
+export VERIF REPO BASE
+WORK=$(mktemp -d "$BASE/selftest-XXXXXX")
+trap 'rm -rf "$WORK"' EXIT
+one() {
+  meta="$1"; P="$2"
+  patch="${meta%.json}.patch"
+  name=$(basename "$patch")
+  S=$(mktemp -d "$WORK/m-XXXXXX")
+  rsync -a --exclude .git "$REPO"/ "$S"/
+  if ! (cd "$S" && patch -p1 -s --no-backup-if-mismatch < "$patch" >/dev/null 2>&1); then
+    echo "SELFTEST skipped (patch does not apply): $name"; rm -rf "$S"; return 0
+  fi
+  out=$("$VERIF/bin/govc" -prop "$P" -repo "$S" -verif "$VERIF" -out "$S.out" -timeout 5 -j 4 2>&1); rc=$?
+  if [ $rc -eq 1 ] && echo "$out" | grep -q "^VIOLATION property=$P"; then
+    echo "SELFTEST ok: $name detected by $P ($(echo "$out" | grep -c '^VIOLATION') obligations)"
+  else
+    echo "SELFTEST MISSED: $name not detected by $P (rc=$rc)"; echo "$out" | tail -4 | sed 's/^/    /'
+  fi
+  rm -rf "$S" "$S.out"
+}
+export -f one
+jobs=()
 for meta in "$VERIF"/selftest/mutants/*.json; do
   [ -e "$meta" ] || continue
-  patch="${meta%.json}.patch"
   props=$(python3 -c "import json,sys; print(' '.join(json.load(open(sys.argv[1]))['properties']))" "$meta")
   for P in $props; do
     if [ -n "$ONLY" ] && [ "$ONLY" != "$P" ]; then continue; fi
-    S=$(mktemp -d "$BASE/selftest-XXXXXX")
-    rsync -a --exclude .git "$REPO"/ "$S"/
-    if ! (cd "$S" && patch -p1 -s --no-backup-if-mismatch < "$patch" >/dev/null 2>&1); then
-      echo "SELFTEST skipped (patch does not apply): $(basename "$patch")"; skipped=$((skipped+1)); rm -rf "$S" "$S.out"; continue
-    fi
-    out=$("$VERIF/bin/govc" -prop "$P" -repo "$S" -verif "$VERIF" -out "$S.out" -timeout 10 2>&1); rc=$?
-    ran=$((ran+1))
-    if [ $rc -eq 1 ] && echo "$out" | grep -q "^VIOLATION property=$P"; then
-      echo "SELFTEST ok: $(basename "$patch") detected by $P ($(echo "$out" | grep -c '^VIOLATION') obligations)"
-    else
-      echo "SELFTEST MISSED: $(basename "$patch") not detected by $P (rc=$rc)"; echo "$out" | tail -5; fail=$((fail+1))
-    fi
-    rm -rf "$S" "$S.out"
+    jobs+=("$meta $P")
   done
 done
-
-echo "SELFTEST summary: ran=$ran missed=$fail skipped=$skipped"
-[ $fail -eq 0 ]
+printf '%s\n' "${jobs[@]}" | xargs -P "$PAR" -L 1 bash -c 'one "$0" "$1"' > "$WORK/log" 2>&1
+cat "$WORK/log"
+ran=$(grep -c "^SELFTEST \(ok\|MISSED\)" "$WORK/log")
+missed=$(grep -c "^SELFTEST MISSED" "$WORK/log")
+skipped=$(grep -c "^SELFTEST skipped" "$WORK/log")
+echo "SELFTEST summary: ran=$ran missed=$missed skipped=$skipped"
+[ "$missed" -eq 0 ]
